@@ -663,6 +663,7 @@ func checkC17(c *Ctx, r *Report) {
 		r.add("C17.d", "guardedby", fi.Key+":incoming-filter", "only edges that point at the queried node are listed as incoming", []string{fi.Key}, sites, viol)
 	}
 
+	ruleEarlyExitInventory(c, r, "C17.c", 8, "graphs")
 	// every element filter in these packages is a reviewed one
 	ruleSkipInventory(c, r, "C17.d", loadSkipTable(c.VerifDir), 8, "graphs")
 }
